@@ -128,7 +128,9 @@ func (m MemCache) retrieve(id uint16, addr net.IP) (TemplateRecord, bool) {
 func (m MemCache) allSetIds() []int {
 	num := 0
 	for _, shard := range m {
+		shard.RLock()
 		num += len(shard.Templates)
+		shard.RUnlock()
 	}
 	result := make([]int, 0, num)
 	for _, shard := range m {
@@ -144,12 +146,19 @@ func (m MemCache) allSetIds() []int {
 
 // Dump saves the current templates to hard disk
 func (m MemCache) Dump(cacheFile string) error {
+	// workers may still be inserting templates: hold every shard's read lock while the maps are marshalled
+	for _, shard := range m {
+		shard.RLock()
+	}
 	b, err := json.Marshal(
 		memCacheDisk{
 			m,
 			shardNo,
 		},
 	)
+	for _, shard := range m {
+		shard.RUnlock()
+	}
 	if err != nil {
 		return err
 	}
